@@ -58,7 +58,9 @@ def roundtrip(r: Run, stream, c, label, spelling=None, full=True, want_print=Tru
         try:
             if phase_dist(bq_unitary(c), bq_unitary(c2)) > 1e-9:
                 d = 'unitary'
-        except Exception as e:   # pragma: no cover
+        except BaseException as e:   # pragma: no cover (pyo3 panics are BaseException)
+            if isinstance(e, (KeyboardInterrupt, SystemExit)):
+                raise
             d = f'unitary: {type(e).__name__}'
     if d:
         ok = False
@@ -151,7 +153,7 @@ def stream_lib(r: Run, ncirc):
     for i in range(ncirc):
         n = rng.choice([1, 2, 3, 4, 5, 6, 6, 8, 11])
         c = rand_circuit(n, rng.randint(1, 14), 2)
-        roundtrip(r, 'lib-circuit', c, f'random-{i}')
+        roundtrip(r, 'lib-circuit', c, f'random-{i}', 'random-circuit')
         ck.bump('lib_circuit_qubits', str(n))
 
 
@@ -215,7 +217,13 @@ def check_program(r: Run, stream, text, ref, use_qiskit, sig=None, what=None,
             else:
                 if c.num_qudits <= 6:
                     ck.bump('qiskit_unitaries_compared')
-                    dist = phase_dist(r.qk.unitary(qc), bq_unitary(c))
+                    try:
+                        dist = phase_dist(r.qk.unitary(qc), bq_unitary(c))
+                    except (Exception, BaseException) as e:   # absurd values after a misread
+                        if isinstance(e, (KeyboardInterrupt, SystemExit)):
+                            raise
+                        ck.bump('unitary_not_computable')
+                        dist = 0.0 if found else 1.0
                     if dist > 1e-7:
                         found.append('qiskit-unitary')
                         report(
